@@ -89,6 +89,9 @@ struct VecSrc
 VS_REL(==) VS_REL(!=) VS_REL(<) VS_REL(<=) VS_REL(>) VS_REL(>=)
 
 struct NoEq { int v; };  // no operator== : Any::handle<NoEq>::isSame is constant false
+// operator== coarser than identity (compares the key only): "equal" payloads need not be identical, so an
+// assignment must still install the right-hand side's payload
+struct KeyRec { int key; int note; bool operator==(const KeyRec &o) const { return key == o.key; } };
 
 static const char *const STRS[4] = {"", "a", "bbbbbbbbbbbbbbbbbbbbbbbbbbbbbbbbbbbbbbbb", "ccccccccccccccccc"};
 static int clampTok(int k) { return k < 0 ? 0 : (k > 3 ? 3 : k); }
@@ -331,6 +334,14 @@ struct OptHarness
       if (isT(i)) { const T v = P<T>::make(j); *W(i) = v; } else { const U v = P<T>::makeU(j); *Uw(i) = v; }
       taint[i] = false; return "ok" + tail();
     }
+    if (op == "asown") {
+      // o = o.value(): operator=(U&&) with an lvalue that aliases the wrapper's own payload; the value must survive
+      if (!isT(i)) return "bad-op";
+      if (!present(i)) return "absent" + tail();
+      if (!has(i) || taint[i]) return "noval" + tail();
+      *W(i) = W(i)->value();
+      return "ok" + tail();
+    }
     if (op == "asvr") { if (!isT(i)) return "bad-op"; *W(i) = P<T>::make(j); taint[i] = false; return "ok" + tail(); }
     if (op == "asvu") { if (!isT(i)) return "bad-op"; *W(i) = P<T>::makeU(j); taint[i] = false; return "ok" + tail(); }
     if (op == "asc" || op == "asm" || op == "ascu" || op == "asmu") {
@@ -398,6 +409,7 @@ template <> struct AP<int> { static int make(int k) { return k; } static std::st
 template <> struct AP<float> { static float make(int k) { return (float)k; } static std::string show(float v) { return std::to_string((int)v); } };
 template <> struct AP<long> { static long make(int k) { return k; } static std::string show(long v) { return std::to_string(v); } };
 template <> struct AP<std::string> { static std::string make(int k) { return STRS[clampTok(k)]; } static std::string show(const std::string &v) { return P<std::string>::show(v); } };
+template <> struct AP<KeyRec> { static KeyRec make(int k) { KeyRec r; r.key = k / 4; r.note = k; return r; } static std::string show(const KeyRec &v) { return std::to_string(v.note); } };
 template <> struct AP<NoEq> { static NoEq make(int k) { NoEq n; n.v = k; return n; } static std::string show(const NoEq &v) { return std::to_string(v.v); } };
 template <> struct AP<Trk<0>> { static Trk<0> make(int k) { return Trk<0>(k); } static std::string show(const Trk<0> &v) { reg::readfrom(&v); return std::to_string(v.v); } };
 
@@ -431,9 +443,9 @@ struct AnyHarness
   }
 #define BY_TAG(t, EXPR)                                   \
   ((t) == "int" ? EXPR(int) : (t) == "float" ? EXPR(float) : (t) == "long" ? EXPR(long) : (t) == "string" ? EXPR(std::string) \
-   : (t) == "noeq" ? EXPR(NoEq) : EXPR(Trk<0>))
+   : (t) == "noeq" ? EXPR(NoEq) : (t) == "key" ? EXPR(KeyRec) : EXPR(Trk<0>))
 
-  static bool tagOk(const std::string &t) { return t == "int" || t == "float" || t == "long" || t == "string" || t == "noeq" || t == "trk"; }
+  static bool tagOk(const std::string &t) { return t == "int" || t == "float" || t == "long" || t == "string" || t == "noeq" || t == "trk" || t == "key"; }
 
   std::string step(const std::vector<std::string> &w)
   {
@@ -470,7 +482,7 @@ struct AnyHarness
       std::string s = c.toString();
       if (!c.valid()) return "empty" + tail();
       std::string t = c.is<int>() ? "int" : c.is<float>() ? "float" : c.is<long>() ? "long" : c.is<std::string>() ? "string"
-          : c.is<NoEq>() ? "noeq" : c.is<Trk<0>>() ? "trk" : "unknown";
+          : c.is<NoEq>() ? "noeq" : c.is<KeyRec>() ? "key" : c.is<Trk<0>>() ? "trk" : "unknown";
       (void)s;  // the text is not part of the property; the stored type is reported through is<T>()
       return "T:" + t + tail();
     }
